@@ -233,7 +233,7 @@ func (k *c11Counter) weight(g *flow.Func, call *ast.CallExpr) int {
 		return 1
 	}
 	if callee, ok := g.Callee(call).(*types.Func); ok {
-		if fd := k.decls[callee.Origin()]; fd != nil {
+		if fd := k.decls[c11SoleImpl(k.pkg, callee.Origin())]; fd != nil {
 			return k.max(fd)
 		}
 	}
@@ -246,7 +246,7 @@ func (k *c11Counter) minWeight(g *flow.Func, call *ast.CallExpr) int {
 		return 1
 	}
 	if callee, ok := g.Callee(call).(*types.Func); ok {
-		if fd := k.decls[callee.Origin()]; fd != nil {
+		if fd := k.decls[c11SoleImpl(k.pkg, callee.Origin())]; fd != nil {
 			return k.min(fd)
 		}
 	}
@@ -460,10 +460,13 @@ func c11CallIndex(pkg *packages.Package, decls map[*types.Func]*ast.FuncDecl) (m
 				return false
 			case *ast.Ident:
 				callee, ok := info.Uses[x].(*types.Func)
-				if !ok || decls[callee.Origin()] == nil {
+				if !ok {
 					return true
 				}
-				callee = callee.Origin()
+				callee = c11SoleImpl(pkg, callee.Origin())
+				if decls[callee] == nil {
+					return true
+				}
 				if call := callFun[x]; call != nil {
 					sites[callee] = append(sites[callee], c11CallSite{caller: fd, call: call, inLit: len(lits) > 0})
 				} else {
